@@ -1550,6 +1550,12 @@ def _str_split(pe, st, args, t):
 def _string_edit(pe, st, args, t):
     nm = (t.get("callee") or "").rsplit("::", 1)[1]
     r = args[0]
+    if nm == "clear" and r != TOP and r[0] == "ref":
+        cur = _deref_all(pe, st, r)
+        if cur != TOP and cur[0] in ("string", "str"):
+            # whatever the text was (it may hold symbolic pieces), it is empty afterwards
+            pe.store_ptr(st, r[1], ("string", ()))
+            return UNIT
     s_ = _pystr(pe, st, r)
     if r == TOP or r[0] != "ref" or s_ is None:
         raise _Abort("top", "String::%s on an unknown string" % nm)
@@ -3278,6 +3284,10 @@ def _pystr(pe, st, v):
                 out.append(chr(x))
                 continue
             txt = _render_disp(x)
+            if txt is None and isinstance(x, tuple) and len(x) >= 2 and x[0] == "disp" and (len(x) < 5 or (x[2] in (None, 0, 0x20, 0xE0000020, 0x60000020) and x[3] in (None, 0) and x[4] in (None, 0))):
+                # Display of a string-like value (a &str, a String, a Cow<str>, a reference to one) is its text
+                inner = _deref_all(pe, st, x[1]) if x[1] != TOP else TOP
+                txt = _pystr(pe, st, inner) if inner != TOP and inner[0] in ("str", "string", "adt", "ref") and inner is not v else None
             if txt is None:
                 return None
             out.append(txt)
@@ -3693,6 +3703,14 @@ def _str_as_bytes(pe, st, args, t):
             return ("iter", arr[1], 0)
         return ("ref", ("const", arr))
     raise _Abort("top", "as_bytes() of an unknown string")
+
+
+@pmodel("std::string::String::into_bytes", "alloc::string::String::into_bytes", "core::str::<impl str>::into_boxed_bytes")
+def _string_into_bytes(pe, st, args, t):
+    s_ = _pystr(pe, st, args[0])
+    if s_ is None:
+        raise _Abort("top", "into_bytes() of an unknown string")
+    return _vec_of(pe, [mk_int("u8", b) for b in s_.encode()])
 
 
 @pmodel("core::str::traits::<impl std::ops::Index<I> for str>::index", "core::str::<impl str>::get_unchecked")
